@@ -200,29 +200,36 @@ type op struct {
 	k, v  int      // universe indexes (maps / bidi)
 	items []int    // sets: the variadic batch; kind 3: the elements of the document
 	doc   [][2]int // kind 3, maps / bidi: the members of the document, in document order
+	null  bool     // kind 3: the document is the JSON value null
 }
 
-// Some operations become "UnmarshalJSON(document)": the container, in whatever state it is, loads a document with distinct keys
-// (and distinct values, so that it is also a valid bidi-map document); the code decodes, clears and re-inserts, so the container must
-// then hold exactly the document's contents - a decoder that merges into the used container does not.
+// Some operations become "UnmarshalJSON(document)": the container, in whatever state it is, loads a document that was NOT written by
+// its own MarshalJSON: members in any order, distinct member names, values that may repeat (for a bidi-map: several keys carrying one
+// value, so only one of them can survive), set documents with repeated and unsorted elements, the empty document and null.  The code
+// decodes, clears and re-inserts, so the container must then hold exactly what Clear followed by those insertions leaves.
 func injectLoads(rng *vhlib.Rng, ops []op, u, vu int) []op {
 	for i := range ops {
 		if rng.Intn(10) != 0 {
 			continue
 		}
 		n := rng.Intn(u + 1)
-		if n > vu {
-			n = vu
-		}
-		ks, vs := rng.Perm(u), rng.Perm(vu)
+		ks := rng.Perm(u)
 		o := op{kind: 3}
+		distinct := rng.Intn(3) == 0 && n <= vu
+		vs := rng.Perm(vu)
 		for j := 0; j < n; j++ {
-			o.doc = append(o.doc, [2]int{ks[j], vs[j]})
+			v := rng.Intn(vu)
+			if distinct {
+				v = vs[j]
+			}
+			o.doc = append(o.doc, [2]int{ks[j], v})
 			o.items = append(o.items, ks[j])
 		}
-		if rng.Intn(4) == 0 && len(o.items) > 0 {
-			o.items = append(o.items, o.items[0]) // a set document may repeat an element
+		for r := rng.Intn(3); r > 0 && len(o.items) > 0; r-- { // a set document may repeat elements, anywhere
+			at := rng.Intn(len(o.items) + 1)
+			o.items = append(o.items[:at], append([]int{o.items[rng.Intn(len(o.items))]}, o.items[at:]...)...)
 		}
+		o.null = n == 0 && rng.Bool()
 		ops[i] = o
 	}
 	return ops
@@ -451,6 +458,9 @@ func runMap[K comparable](w *vhlib.Writer, d *dom[K], mm mapMaker[K], safe bool,
 					ms = append(ms, hashName(d.univ[kv[0]])+":"+fmt.Sprint(kv[1]))
 				}
 				doc := "{" + strings.Join(ms, ",") + "}"
+				if o.null {
+					doc = "null"
+				}
 				term, lab, h = "MLoad "+pairList(o.doc), "UnmarshalJSON", "UnmarshalJSON("+doc+")"
 				load(m, doc)
 			default:
@@ -621,6 +631,9 @@ func runSet[K comparable](w *vhlib.Writer, rng *vhlib.Rng, d *dom[K], sm setMake
 					es = append(es, jtext(d.univ[x]))
 				}
 				doc := "[" + strings.Join(es, ",") + "]"
+				if o.null {
+					doc = "null"
+				}
 				term, lab, h = "SLoad "+idxList(o.items), "UnmarshalJSON", "UnmarshalJSON("+doc+")"
 				load(s, doc)
 				return
@@ -812,6 +825,9 @@ func runBidi[K comparable, V comparable](w *vhlib.Writer, dk *dom[K], dv *dom[V]
 					}
 				}
 				doc := "{" + strings.Join(ms, ",") + "}"
+				if o.null {
+					doc = "null"
+				}
 				term, lab, h = "BLoad "+pairList(o.doc), "UnmarshalJSON", "UnmarshalJSON("+doc+")"
 				load(m, doc)
 			default:
@@ -1001,8 +1017,9 @@ func main() {
 	w.Close(o, "one case = one operation sequence (Put/Add/Remove/Clear, batches of 0-3 items for sets) on one container kind, key type (int, string, "+
 		"pointer with pairs of pointers to equal structs) and plain/Safe variant, snapshotted after every mutation (Size, Empty, Keys, Values, Get/Contains/GetKey over "+
 		"the whole universe, table dump and backward walk of the linked containers), or one set-algebra call with operands built by such sequences and re-read after "+
-		"the call and after mutating result and operands; one operation in ten (int / string keys) is UnmarshalJSON of a document with distinct keys and values into the container as it "+
-		"is (the code clears and re-inserts: the reference is Clear followed by the Puts / the Add); streams: all words of length 4 (thorough 5) over a 3-key pointer universe (linked map/set) and a 2x2 universe "+
+		"the call and after mutating result and operands; one operation in ten (int / string keys) is UnmarshalJSON, into the container as it is, of a document NOT written by MarshalJSON "+
+		"(members in any order, repeated values - several keys of a bidi-map document carrying one value -, repeated and unsorted set elements, {} / [] / null; the code clears and "+
+		"re-inserts: the reference is Clear followed by the Puts / the Add, for a bidi-map in any order of the members); streams: all words of length 4 (thorough 5) over a 3-key pointer universe (linked map/set) and a 2x2 universe "+
 		"(bidi maps, built-in and subtracting comparators), plus tree-backed sets / bidi-maps built with user comparators a-b, b-a, (b-a)*7, (a-b)*3, k*strings.Compare and a struct-field "+
 		"comparator on pointer keys over universes with gaps of varying size, plus profiled random sequences (churn, put-heavy, delete-heavy, duplicates, ascending, descending, zig-zag, remove-and-re-add); distinct = distinct "+
 		"case terms; non-trivial = some mutation was applied to a non-empty container (algebra: both operands non-empty)")
